@@ -21,6 +21,8 @@ CONSTANTS RtmpPubs, RtspPubs, CustPubs, PsPubs,     \* input sessions (ids)
           PullEnabled,                              \* relay pull actions are part of the model
           HookOn,                                   \* a stream hook is installed (it counts as a consumer: Group.hasSubSession)
           ShutdownEnabled,                          \* server shutdown is part of the model
+          PushTargets,                              \* relay push targets (addr_list); {} = relay push off
+          ParamLen,                                 \* length of the URL parameters of RTMP publishers (0 = none)
           ProbeMsgs,                                \* messages per Probe (2 when an AAC sequence header precedes the frame)
           MaxTick, MaxAttempts
 
@@ -38,11 +40,13 @@ VARIABLES grp,      \* the group exists
           pull,     \* relay pull module
           clock,    \* abstract time: number of auto-stop windows that have elapsed
           nticks,
+          push,     \* relay push per target: idle | conn (connecting) | att (attached); patt = connection attempts seen
+          patt,
           down,     \* the server has been shut down (ServerManager.Dispose): nothing happens any more
           act
 
-vars == <<grp, inp, owner, ss, closed, nh, pull, clock, nticks, down, act>>
-View == <<grp, inp, owner, ss, closed, nh, pull, clock, nticks, down>>
+vars == <<grp, inp, owner, ss, closed, nh, pull, clock, nticks, push, patt, down, act>>
+View == <<grp, inp, owner, ss, closed, nh, pull, clock, nticks, push, patt, down>>
 
 PullInit == [api |-> FALSE, flying |-> FALSE, att |-> FALSE, n |-> 0, lastOut |-> 0, attempts |-> 0, gen |-> 0]
 
@@ -50,6 +54,7 @@ Init == /\ grp = FALSE /\ inp = "" /\ owner = ""
         /\ ss = [x \in Sessions |-> "idle"] /\ closed = [x \in Sessions |-> FALSE]
         /\ nh = [x \in Sessions |-> "none"]
         /\ pull = PullInit /\ clock = 0 /\ nticks = 0 /\ down = FALSE
+        /\ push = [t \in PushTargets |-> "idle"] /\ patt = 0
         /\ act = [name |-> "init"]
 
 HasSub == \E x \in Subs : ss[x] = "in"
@@ -81,6 +86,14 @@ DelInEv   == IF HookOn /\ owner # "" THEN <<N("hook_stop", owner)>> ELSE <<>>
 
 Obs(ret, notif, hook) == [ret |-> ret, notif |-> notif, hook |-> hook, attempts |-> pull.attempts]
 ObsP(ret, notif, hook, p) == [ret |-> ret, notif |-> notif, hook |-> hook, attempts |-> p.attempts]
+\* relay push (group__relay_push.go): startPushIfNeeded starts one connection per idle target while an
+\* RTMP or RTSP publisher is the input (on its arrival and on every tick)
+Pushable(i) == i \in NetPubs
+StartPush(pu, i) == IF Pushable(i) THEN [t \in PushTargets |-> IF pu[t] = "idle" THEN "conn" ELSE pu[t]] ELSE pu
+NStarted(pu, i) == IF Pushable(i) THEN Cardinality({t \in PushTargets : pu[t] = "idle"}) ELSE 0
+\* stopPushIfNeeded (delIn): attached push sessions are closed; connections still being set up are not touched
+StopPush(pu) == [t \in PushTargets |-> IF pu[t] = "att" THEN "idle" ELSE pu[t]]
+NAtt(pu) == Cardinality({t \in PushTargets : pu[t] = "att"})
 
 ---------------------------------------------------------------------------
 NewPub(x) ==
@@ -310,6 +323,7 @@ Shutdown ==
   /\ closed' = [x \in Sessions |-> closed[x] \/ (ss[x] = "in" /\ x \notin CustPubs)]
   /\ pull' = [pull EXCEPT !.att = FALSE, !.flying = FALSE]
   /\ act' = [name |-> "Shutdown", obs |-> Obs("ok", <<>>, IF grp THEN DelInEv ELSE <<>>)]
+  /\ push' = StopPush(push) /\ patt' = patt
   /\ UNCHANGED <<grp, ss, nh, clock, nticks>>
 
 Step == \/ \E x \in NetPubs : NewPub(x) \/ DelPub(x)
@@ -324,9 +338,38 @@ Step == \/ \E x \in NetPubs : NewPub(x) \/ DelPub(x)
 \* after the shutdown nothing happens; Halt only exists so that a simulated behaviour still has a
 \* step after Shutdown (the emission prints the action that led to the current state)
 Halt == /\ down /\ act.name # "Halt" /\ act' = [name |-> "Halt"]
-        /\ UNCHANGED <<grp, inp, owner, ss, closed, nh, pull, clock, nticks, down>>
+        /\ UNCHANGED <<grp, inp, owner, ss, closed, nh, pull, clock, nticks, push, patt, down>>
+\* what a step of the session bookkeeping does to relay push
+PushFx ==
+  IF grp /\ ~grp' THEN push' = [t \in PushTargets |-> "idle"] /\ patt' = patt          \* group removed
+  ELSE IF inp # "" /\ inp' = "" THEN push' = StopPush(push) /\ patt' = patt              \* delIn
+  ELSE IF (inp' # inp /\ Pushable(inp')) \/ (act'.name = "Tick" /\ grp')                 \* addIn / Group.Tick
+    THEN push' = StartPush(push, inp') /\ patt' = patt + NStarted(push, inp')
+  ELSE push' = push /\ patt' = patt
+
+\* the push target accepts the connection (handshake, connect, publish): the session attaches if an RTMP /
+\* RTSP publisher is (still) the input, otherwise it is closed again
+PushOk(t) ==
+  /\ push[t] = "conn"
+  /\ push' = [push EXCEPT ![t] = IF Pushable(inp) THEN "att" ELSE "idle"]
+  /\ act' = [name |-> "PushOk", x |-> t,
+             obs |-> Obs(IF Pushable(inp) THEN "ok" ELSE "late", <<>>, <<>>),
+             plen |-> IF inp \in RtmpPubs THEN ParamLen ELSE 0]
+PushFail(t) ==
+  /\ push[t] = "conn"
+  /\ push' = [push EXCEPT ![t] = "idle"]
+  /\ act' = [name |-> "PushFail", x |-> t, obs |-> Obs("ok", <<>>, <<>>)]
+PushEnd(t) ==
+  /\ push[t] = "att"
+  /\ push' = [push EXCEPT ![t] = "idle"]
+  /\ act' = [name |-> "PushEnd", x |-> t, obs |-> Obs("ok", <<>>, <<>>)]
+PushStep == /\ \E t \in PushTargets : PushOk(t) \/ PushFail(t) \/ PushEnd(t)
+            /\ patt' = patt
+            /\ UNCHANGED <<grp, inp, owner, ss, closed, nh, pull, clock, nticks>>
+
 Next == \/ /\ ~down
-           /\ \/ (Step /\ down' = down)
+           /\ \/ (Step /\ PushFx /\ down' = down)
+              \/ (PushStep /\ down' = down)
               \/ Shutdown
         \/ Halt
 Spec == Init /\ [][Next]_vars
@@ -349,14 +392,16 @@ NotifyPaired ==
     /\ (ss[x] \in {"idle", "refused"}) => nh[x] = "none"
 \* C17: an attempt is in flight only while the module says so; never while an input is attached by it
 PullSane == /\ (pull.att => pull.flying) /\ (pull.att => inp = "pull")
+\* C17: relay push is attached only while an RTMP / RTSP publisher is the input (it ends with the publisher)
+PushSane == \A t \in PushTargets : push[t] = "att" => Pushable(inp)
 \* C16: a group with nothing left is removed by the next tick (checked as: an inactive group never survives a Tick)
 EmptyRemovedAct == [][(act'.name = "Tick" /\ grp /\ Inactive) => ~grp']_vars
 
 St == [grp |-> grp, inp |-> inp, owner |-> owner, ss |-> ss, closed |-> closed, pull |-> pull, clock |-> clock,
-       nticks |-> nticks, down |-> down]
+       nticks |-> nticks, down |-> down, push |-> push, patt |-> patt]
 Emit == PrintT("@E@" \o ToJson([f |-> St, a |-> act',
                                  t |-> [grp |-> grp', inp |-> inp', owner |-> owner', ss |-> ss', closed |-> closed',
-                                        pull |-> pull', clock |-> clock', nticks |-> nticks', down |-> down'],
+                                        pull |-> pull', clock |-> clock', nticks |-> nticks', down |-> down', push |-> push', patt |-> patt'],
                                  l |-> TLCGet("level")]))
 EmitA == PrintT("@A@" \o ToJson([a |-> act, l |-> TLCGet("level")]))
 =============================================================================
